@@ -301,7 +301,8 @@ Theorem later_iterations_keep_singletons e stmts s s' :
   same_persist s s' /\ heap_ext s s'.
 Proof.
   unfold iteration. intros Hok H. dbind H as [s1 r].
-  destruct (slots_filled s1); [|discriminate]. injection H as <-.
+  destruct (slots_filled s1); [|discriminate].
+  destruct (stale_slot 4 s1 (survivors s1)); [discriminate|]. injection H as <-.
   split.
   - apply run_persist in E; [|exact Hok]. destruct E as [a b]. split; [exact a|exact b].
   - apply run_heap_ext in E. intros h c Hc. destruct (E h c Hc) as (c' & Hc' & Hk). exists c'. auto.
